@@ -168,4 +168,29 @@ def readsVerdict (raw : Bytes) (zeroSplit zeroWhole : Nat) (same : Bool) : Strin
   else if !same then "bad:segmentation:the stream read depends on how the connection delivered the bytes"
   else "ok"
 
+/-! ### a connection that stops accepting writes -/
+
+/-- the wire cut into the byte strings of its records (reference decoder); `none` if it is not a
+sequence of whole records -/
+def splitRecords : Nat → Bytes → Option (List Bytes)
+  | 0, _ => none
+  | f + 1, w =>
+    if w.isEmpty then some [] else
+    match decodeRecord w with
+    | none => none
+    | some (_, rest) =>
+      match splitRecords f rest with
+      | none => none
+      | some rs => some (w.take (w.length - rest.length) :: rs)
+
+/-- When the connection fails a `Write` and every later one, what it accepted before must be the
+first records of the intended conversation, whole and in order — never part of a record, never
+anything after the failure. `intended`: what `Do` writes on a healthy connection. -/
+def brokenConnVerdict (intended accepted : Bytes) (failAt : Nat) : String :=
+  match splitRecords (intended.length + 1) intended with
+  | none => "bad:case:intended wire is not a record sequence"
+  | some rs =>
+    if accepted = (rs.take (failAt - 1)).flatten then "ok"
+    else "bad:broken-conn:what a failing connection accepted is not the whole records written before the failure"
+
 end Casket.FCGISpec
